@@ -673,7 +673,36 @@ func okTestsOf(lk *ssa.Lookup) []okTest {
 		if !ok || ex.Index != 1 || ex.Referrers() == nil {
 			continue
 		}
+		var uses []ssa.Instruction
+		uses = append(uses, *ex.Referrers()...)
+		// the ok result spilled into a variable cell (captured or address-taken `ok`): the loads of that cell that follow the
+		// store in the same block, before any other store to it or any call, still carry this lookup's result
 		for _, rr := range *ex.Referrers() {
+			st, isSt := rr.(*ssa.Store)
+			if !isSt || st.Val != ssa.Value(ex) {
+				continue
+			}
+			after := false
+			for _, in := range st.Block().Instrs {
+				if in == ssa.Instruction(st) {
+					after = true
+					continue
+				}
+				if !after {
+					continue
+				}
+				if s2, ok := in.(*ssa.Store); ok && s2.Addr == st.Addr {
+					break
+				}
+				if _, ok := in.(ssa.CallInstruction); ok {
+					break
+				}
+				if ld, ok := in.(*ssa.UnOp); ok && ld.Op == token.MUL && ld.X == st.Addr && ld.Referrers() != nil {
+					uses = append(uses, *ld.Referrers()...)
+				}
+			}
+		}
+		for _, rr := range uses {
 			switch x := rr.(type) {
 			case *ssa.If:
 				out = append(out, okTest{x, x.Block().Succs[0], x.Block().Succs[1]})
@@ -689,4 +718,41 @@ func okTestsOf(lk *ssa.Lookup) []okTest {
 		}
 	}
 	return out
+}
+
+// throughCell: a load of a variable cell that directly follows (same block, no call and no other store to the cell in
+// between) a store of v into that cell is v. Other values are returned unchanged. This is the flow-sensitive counterpart of
+// resolve() for cells with several stores (a captured or reused `ok`).
+func throughCell(v ssa.Value) ssa.Value {
+	ld, ok := v.(*ssa.UnOp)
+	if !ok || ld.Op != token.MUL {
+		return v
+	}
+	var last ssa.Value
+	for _, in := range ld.Block().Instrs {
+		if in == ssa.Instruction(ld) {
+			break
+		}
+		switch x := in.(type) {
+		case *ssa.Store:
+			if x.Addr == ld.X {
+				last = x.Val
+			}
+		case ssa.CallInstruction:
+			last = nil
+		}
+	}
+	if last != nil {
+		return last
+	}
+	return v
+}
+
+// errorResultIndex: index of the trailing error result of fn, or -1.
+func errorResultIndex(fn *ssa.Function) int {
+	res := fn.Signature.Results()
+	if res.Len() == 0 || !isErrorType(res.At(res.Len()-1).Type()) {
+		return -1
+	}
+	return res.Len() - 1
 }
